@@ -532,15 +532,39 @@ func migrateOne(id string, sp mspec) {
 			die("keys: %v", err)
 		}
 		// A answers the initialisation call of NewClient: invokeWithLayer(initConnection(help.getConfig)) -> config
+		// the option list varies with the scenario: DC 2 and 12 always end up at B; around them options that must NOT
+		// win (an earlier option for the same id, CDN options before and after), IPv6 literals, names, odd ports
+		opts := []*telegram.DcOption{}
+		variant := 0
+		for _, ch := range id {
+			variant = (variant*31 + int(ch)) % 4
+		}
+		if variant == 1 || variant == 3 {
+			opts = append(opts, &telegram.DcOption{ID: 2, IpAddress: "10.9.9.9", Port: 1}, &telegram.DcOption{ID: 6, Cdn: true, IpAddress: "10.9.9.8", Port: 2})
+		}
+		opts = append(opts,
+			&telegram.DcOption{ID: 2, IpAddress: "127.0.0.1", Port: int32(pB)},
+			&telegram.DcOption{ID: 12, IpAddress: "127.0.0.1", Port: int32(pB)},
+			&telegram.DcOption{ID: 6, Cdn: true, IpAddress: "127.0.0.1", Port: int32(pB)},
+			// real configurations list IPv6 options too; DC 14 has nothing else
+			&telegram.DcOption{ID: 14, Ipv6: true, IpAddress: "2001:db8::e", Port: 443})
+		if variant >= 2 {
+			opts = append(opts, &telegram.DcOption{ID: 2, Cdn: true, IpAddress: "10.9.9.7", Port: 3},
+				&telegram.DcOption{ID: 15, IpAddress: "dc15.example.org", Port: 8443},
+				&telegram.DcOption{ID: 16, Ipv6: true, IpAddress: "::ffff:10.0.0.1", Port: 80},
+				&telegram.DcOption{ID: 17, IpAddress: "10.0.0.17", Port: 0},
+				&telegram.DcOption{ID: 15, MediaOnly: true, IpAddress: "10.0.0.15", Port: 65535})
+		}
 		cfg := &telegram.Config{
 			Date: 1, Expires: 2, ThisDc: 1, MeURLPrefix: "https://t.me/",
-			DcOptions: []*telegram.DcOption{
-				{ID: 2, IpAddress: "127.0.0.1", Port: int32(pB)},
-				{ID: 12, IpAddress: "127.0.0.1", Port: int32(pB)},
-				{ID: 6, Cdn: true, IpAddress: "127.0.0.1", Port: int32(pB)},
-				// real configurations list IPv6 options too; DC 14 has nothing else
-				{ID: 14, Ipv6: true, IpAddress: "2001:db8::e", Port: 443},
-			},
+			DcOptions: opts,
+		}
+		{
+			parts := []string{}
+			for _, d := range opts {
+				parts = append(parts, fmt.Sprintf("%d:%s:%s:%d", d.ID, map[bool]string{true: "1", false: "0"}[d.Cdn], vc.HexS(d.IpAddress), d.Port))
+			}
+			o.put("newclient-config", strings.Join(parts, ","))
 		}
 		initSeen := make(chan refserver.Frame, 1)
 		A.OnFrame(func(f refserver.Frame) {
